@@ -239,6 +239,81 @@ Qed.
 End Run.
 End ReduceProofs.
 
+(* ---- reductions along one dimension: one reduction per strip through a temporary, then an assignment to the result *)
+Section Dim.
+Context {T : Type} (F : FOps T).
+Variables (minf pinf : T) (ofnat : nat -> T).
+Let O := fbase F.
+Hypothesis Rth : ring_theory (o0 O) (o1 O) (oadd O) (omul O) (osub O) (oneg O) (@eq T).
+Hypothesis Hdiv : forall x y, odiv O x y = omul O x (odiv O (o1 O) y).
+Hypothesis Hlit1 : flit F 1 1 = o1 O.
+Add Ring TringD : Rth.
+
+Lemma fwd1_ext s (g g' : nat -> T) : (forall i, g i = g' i) -> forall i, fwd1 O s g i = fwd1 O s g' i.
+Proof.
+  intros H i. unfold fwd1, upd. destruct (Nat.eqb i (lhs s)); [|apply H].
+  apply (rhs_val_ext F Rth). exact H.
+Qed.
+Lemma fwd_sweep_ext tp : forall (g g' : nat -> T), (forall i, g i = g' i) -> forall i, fwd_sweep O tp g i = fwd_sweep O tp g' i.
+Proof.
+  induction tp as [|s tp IH]; intros g g' H i; [apply H|].
+  unfold fwd_sweep. cbn [fold_left]. apply IH. apply fwd1_ext. exact H.
+Qed.
+Lemma upd_pt (a b : nat -> T) k x y : (forall j, a j = b j) -> x = y -> forall j, upd a k x j = upd b k y j.
+Proof. intros H E j. unfold upd. destruct (Nat.eqb j k); [exact E|apply H]. Qed.
+Lemma fwd_sweep_app a b (g : nat -> T) : fwd_sweep O (a ++ b) g = fwd_sweep O b (fwd_sweep O a g).
+Proof. unfold fwd_sweep. apply fold_left_app. Qed.
+Lemma xs_of_ext (g g' : nat -> T) es : (forall e, In e es -> forall z, In z (gis e) -> g (Z.to_nat z) = g' (Z.to_nat z)) -> xs_of F g es = xs_of F g' es.
+Proof.
+  intros H. unfold xs_of. apply map_ext_in. intros e He. f_equal. apply (tangent_ext F). intros z Hz. apply (H e He z Hz).
+Qed.
+
+(* the seed vector after the strips: each strip sets the temporary and its result element to the tangent of its scalar loop *)
+Definition dim_result (tt : nat) (p : rpolicy) (u0 : nat -> T) (strips : list (nat * list (expr (T:=T)))) : nat -> T :=
+  fold_left (fun g rs => let s := snd (reduce_spec F minf pinf ofnat p (xs_of F u0 (snd rs))) in upd (upd g tt s) (fst rs) s) strips u0.
+
+Theorem reduce_dim_correct tt p u0 strips : policy_wf p = true ->
+  (forall rs, In rs strips -> Forall (fresh tt) (snd rs)) ->
+  (forall rs rs', In rs strips -> In rs' strips -> Forall (fresh (fst rs)) (snd rs')) ->
+  (forall i, fwd_sweep O (reduce_dim_tape F minf pinf ofnat tt p strips) u0 i = dim_result tt p u0 strips i) /\
+  reduce_dim_values F minf pinf ofnat tt p strips = map (fun rs => (fst rs, fst (reduce_spec F minf pinf ofnat p (xs_of F u0 (snd rs))))) strips.
+Proof.
+  intros Hwf Htt Hres. split.
+  - unfold dim_result, reduce_dim_tape.
+    (* generalise the start vector: any g that agrees with u0 on what the elements read *)
+    assert (G : forall (l : list (nat * list (expr (T:=T)))), (forall rs, In rs l -> In rs strips) -> forall g,
+              (forall rs e z, In rs strips -> In e (snd rs) -> In z (gis e) -> g (Z.to_nat z) = u0 (Z.to_nat z)) ->
+              forall i, fwd_sweep O (concat (map (fun rs => r_tape (reduce_run F minf pinf ofnat tt p (snd rs)) ++ [mkStmt (fst rs) [(o1 O, tt)]]) l)) g i =
+                        fold_left (fun g rs => let s := snd (reduce_spec F minf pinf ofnat p (xs_of F u0 (snd rs))) in upd (upd g tt s) (fst rs) s) l g i).
+    { induction l as [|rs l IH]; intros Hin g Hg i; [reflexivity|].
+      cbn [map concat fold_left]. rewrite fwd_sweep_app, fwd_sweep_app.
+      assert (Hrs : In rs strips) by (apply Hin; left; reflexivity).
+      pose proof (reduce_run_correct F minf pinf ofnat Rth Hdiv Hlit1 tt g p (snd rs) Hwf (Htt rs Hrs)) as (_ & _ & Hsw). cbv zeta in Hsw.
+      assert (Hx : xs_of F g (snd rs) = xs_of F u0 (snd rs)).
+      { apply xs_of_ext. intros e He z Hz. apply (Hg rs e z Hrs He Hz). }
+      rewrite Hx in Hsw.
+      set (s := snd (reduce_spec F minf pinf ofnat p (xs_of F u0 (snd rs)))) in *.
+      set (g1 := fwd_sweep O (r_tape (reduce_run F minf pinf ofnat tt p (snd rs))) g) in *.
+      set (g2 := upd (upd g tt s) (fst rs) s).
+      assert (H2 : forall j, fwd_sweep O [mkStmt (fst rs) [(o1 O, tt)]] g1 j = g2 j).
+      { intros j. cbn [fwd_sweep fold_left]. unfold fwd1. cbn [lhs rhs]. unfold g2.
+        apply upd_pt; [exact Hsw|].
+        rewrite (rhs_val_cons O Rth), (rhs_val_nil O). cbn [fst snd]. unfold g1. rewrite Hsw. unfold upd. rewrite Nat.eqb_refl. fold O. ring. }
+      etransitivity; [apply fwd_sweep_ext; exact H2|].
+      apply IH; [intros rs' H'; apply Hin; right; exact H'|].
+      intros rs' e z Hin' He Hz. unfold g2, upd.
+      assert (N1 : Z.to_nat z <> fst rs).
+      { pose proof (Hres rs rs' Hrs Hin') as Hf. rewrite Forall_forall in Hf. specialize (Hf e He). unfold fresh in Hf. rewrite Forall_forall in Hf. apply Hf. exact Hz. }
+      assert (N2 : Z.to_nat z <> tt).
+      { pose proof (Htt rs' Hin') as Hf. rewrite Forall_forall in Hf. specialize (Hf e He). unfold fresh in Hf. rewrite Forall_forall in Hf. apply Hf. exact Hz. }
+      destruct (Nat.eqb_spec (Z.to_nat z) (fst rs)); [contradiction|]. destruct (Nat.eqb_spec (Z.to_nat z) tt); [contradiction|].
+      apply (Hg rs' e z Hin' He Hz). }
+    intros i. apply G; [intros rs H; exact H|]. intros; reflexivity.
+  - unfold reduce_dim_values. apply map_ext_in. intros rs Hrs. f_equal.
+    pose proof (reduce_run_correct F minf pinf ofnat Rth Hdiv Hlit1 tt u0 p (snd rs) Hwf (Htt rs Hrs)) as (Hv & _ & _). exact Hv.
+Qed.
+End Dim.
+
 (* ---- the operations pushed inside the element loop fit the reservation (n_active + extra_element_cost) * n *)
 Section Count.
 Context {T : Type} (F : FOps T).
